@@ -63,19 +63,34 @@ def near_dispatch(ctx):
     rep_key = [unparse(n) for n in ast.walk(fn) if isinstance(n, ast.Attribute) and n.attr == "near_field_representation"]
     if not rep_key:
         raise AnalysisError("get_local_interaction_operator no longer reads fmm.near_field_representation")
+    from . import roles
+
+    params = [a.arg for a in fn.args.args]
+    if len(params) != 7:
+        raise AnalysisError("get_local_interaction_operator: signature changed (%s)" % params)
+    G, PTS, CX, DEV = params[0], params[1], params[5], params[6]
+    defs = roles.Defs(fn)
+    shapes = {}
+    for s in ast.walk(fn):
+        if isinstance(s, ast.Return) and s.value is not None:
+            sh = [k.value for c in ast.walk(s.value) if isinstance(c, ast.Call) for k in c.keywords if k.arg == "shape"]
+            shapes[unparse(s.value)] = [roles.canon(x, defs).replace(" ", "") for x in sh]
+    n_pts = "%s.shape[1]" % PTS
+    want_shape = roles.expect("(4 * N * G.number_of_elements, N * G.number_of_elements)", defs, fn.body[-1].lineno, G=G, N=n_pts).replace(" ", "")
     for mode, kname in names.items():
-        effs = dispatch.effects(body, {kf: mode, rep_key[0]: "sparse", "is_complex": mode == "helmholtz"}, fn.name)
-        ks = [e[2] for e in effs if e[0] == "set" and e[1] == "kernel"]
+        effs = dispatch.effects(body, {kf: mode, rep_key[0]: "sparse", CX: mode == "helmholtz"}, fn.name)
+        ks = [e[2] for e in effs if e[0] == "set" and e[2] in names.values()]
         r.check(ks == [kname], "kernel for %s" % mode, HE, fn.name, fn.lineno, "near-field kernel of mode " + mode, "mode %r selects the kernel function %s, expected %s" % (mode, ks, kname))
     for rep, dev, want in (("sparse", "numba", "aslinearoperator"), ("evaluate", "numba", "LinearOperator"), ("evaluate", "opencl", "LinearOperator"), ("evaluate", "cuda", None), ("dense", "numba", None)):
-        effs = dispatch.effects(body, {kf: "laplace", rep_key[0]: rep, "device_interface": dev, "is_complex": False}, fn.name)
+        effs = dispatch.effects(body, {kf: "laplace", rep_key[0]: rep, DEV: dev, CX: False}, fn.name)
         ret = [e for e in effs if e[0] == "return"]
         raised = any(e[0] == "raise" for e in effs)
         if want is None:
             ok, msg = raised and not ret, "representation %r with device interface %r is not rejected" % (rep, dev)
         else:
-            ok = len(ret) == 1 and ret[0][1].replace(" ", "").startswith(want + "(") and "(rows,cols)" in ret[0][1].replace(" ", "") and not raised
-            msg = "representation %r / device %r returns `%s`, expected a %s of shape (rows, cols)" % (rep, dev, ret[0][1][:70] if ret else None, want)
+            got_shape = shapes.get(ret[0][1]) if len(ret) == 1 else None
+            ok = len(ret) == 1 and ret[0][1].replace(" ", "").startswith(want + "(") and got_shape == [want_shape] and not raised
+            msg = "representation %r / device %r returns `%s` of shape %s, expected a %s of shape (4 * points * elements, points * elements) = %s" % (rep, dev, ret[0][1][:70] if ret else None, got_shape, want, want_shape)
         r.check(ok, "representation %s, device %s" % (rep, dev), HE, fn.name, fn.lineno, "near-field operator for (%s, %s)" % (rep, dev), msg)
     # the interface: correction only for identical grids, parameters per mode
     fg = ctx.repo.mod(EX).fn("ExafmmInterface.from_grid")
@@ -83,21 +98,35 @@ def near_dispatch(ctx):
     if not start:
         raise AnalysisError("ExafmmInterface.from_grid: comparison of source and target grid not found")
     tail = [s for s in fg.body[start[0]:] if not isinstance(s, ast.Return)]
+    # the locals, by the role they play in the constructor call that is returned
+    made = [s.value for s in fg.body if isinstance(s, ast.Return) and isinstance(s.value, ast.Call) and unparse(s.value.func) == "cls"]
+    if len(made) != 1 or len(made[0].args) < 2 or not all(isinstance(a, ast.Name) for a in made[0].args[:2]):
+        raise AnalysisError("ExafmmInterface.from_grid: no single `return cls(<source points>, <target points>, ...)`")
+    SP, TP = made[0].args[0].id, made[0].args[1].id
+    kw = {k.arg: k.value for k in made[0].keywords}
+    if not isinstance(kw.get("singular_correction"), ast.Name):
+        raise AnalysisError("ExafmmInterface.from_grid: the singular correction is not handed to the constructor as a local name")
+    SC = kw["singular_correction"].id
+    lps = [s.targets[0].elts[0].id for s in fg.body if isinstance(s, ast.Assign) and isinstance(s.targets[0], ast.Tuple) and isinstance(s.value, ast.Call) and unparse(s.value.func) == "rule" and isinstance(s.targets[0].elts[0], ast.Name)]
+    spd = [unparse(s.value).replace(" ", "") for s in fg.body if isinstance(s, ast.Assign) and unparse(s.targets[0]) == SP]
+    if len(lps) != 1 or len(spd) != 1 or not spd[0].startswith("source_grid.map_to_point_cloud("):
+        raise AnalysisError("ExafmmInterface.from_grid: local quadrature points / source point cloud not found (%s, %s)" % (lps, spd))
+    LP = lps[0]
     want_par = {"laplace": ("[]", "False"), "helmholtz": ("[_np.real(wavenumber),_np.imag(wavenumber)]", "True"), "modified_helmholtz": ("[wavenumber]", "False")}
     for same in (True, False):
         for mode in names:
             effs = dispatch.effects(tail, {"target_grid": "g", "source_grid": "g" if same else "h", "mode": mode}, "from_grid")
             sets = {e[1]: e[2] for e in effs if e[0] == "set"}
-            tp = sets.get("target_points", "")
-            sc = sets.get("singular_correction")
+            tp = sets.get(TP, "")
+            sc = sets.get(SC)
             if same:
-                okp = tp == "source_points"
+                okp = tp == SP
                 call = ast.parse(sc, mode="eval").body if isinstance(sc, str) and sc.startswith("get_local_interaction_operator(") else None
                 okc = False
                 if call is not None and len(call.args) >= 6:
                     a = [unparse(x).replace(" ", "") for x in call.args]
                     par = unparse(call.args[3].args[0]).replace(" ", "") if isinstance(call.args[3], ast.Call) and call.args[3].args else a[3]
-                    okc = a[0] == "source_grid" and a[1] == "local_points" and a[2] == "'%s'" % mode and par == want_par[mode][0] and a[5] == want_par[mode][1]
+                    okc = a[0] == "source_grid" and a[1] == LP and a[2] == "'%s'" % mode and par == want_par[mode][0] and a[5] == want_par[mode][1]
                 ok, msg = okp and okc, "identical grids, mode %s: target points `%s`, correction `%s`" % (mode, tp, (sc or "")[:110])
             else:
                 ok = tp.replace(" ", "").startswith("target_grid.map_to_point_cloud(") and sc is None
@@ -129,7 +158,10 @@ def csr_counter(ctx):
             init = [s for s in S if s.op == "=" and s.target == C and s.loops == (lT,)]
             T = lT.target.id if isinstance(lT.target, ast.Name) else "?"
             np_ = unparse(lQ.iter.args[0]) if isinstance(lQ.iter, ast.Call) and lQ.iter.args else "?"
-            want_init = roles.expect("4 * N * N * P[T]", defs, init[0].node.lineno, keep=KEEP, lv=False, N=np_, P="neighbor_indexptr", T=T) if init else None
+            G = fn.args.args[0].arg
+            ptrs = [s.targets[0].id for s in fn.body if isinstance(s, ast.Assign) and isinstance(s.targets[0], ast.Name) and unparse(s.value).replace(" ", "") == G + ".element_neighbor_indexptr"]
+            PTR = ptrs[0] if len(ptrs) == 1 else G + ".element_neighbor_indexptr"
+            want_init = roles.expect("4 * N * N * P[T]", defs, init[0].node.lineno, keep=KEEP, lv=False, N=np_, P=PTR, T=T) if init else None
             ptr = [s for s in S if s.loops == (lT, lP, lC) and s.op == "=" and isinstance(s.tnode, ast.Subscript)]
             okp = len(ptr) == 1 and unparse(ptr[0].vnode) == C and ptr[0].node.lineno < lS.lineno
             ok = len(at_c) == 2 and after and len(init) == 1 and init[0].value == want_init and okp and init[0].node.lineno < lP.lineno
